@@ -437,7 +437,7 @@ pub fn model(spec: &NodeSpec, ins: &[Out], clock: &Result<i64, Er>) -> Expect {
             Out::Some(t, v) => match clock {
                 Err(e) => Out::Err(*e),
                 Ok(now) => {
-                    if now - t > spec.param {
+                    if (*now as i128) - (t as i128) > spec.param as i128 {
                         Out::None
                     } else {
                         Out::Some(t, v)
@@ -1006,9 +1006,99 @@ fn gen_c02_enumerated(prop: &str, rng: &mut Rng, seed: u64, run: u64) -> Plan {
     plan
 }
 
+/// Second enumerated block: every other combinator (and the bool / Quantity instances of the n-ary
+/// ones up to arity 3) x every assignment of {E1, E2, absent, present} (booleans: true / false) to its
+/// inputs. (kind, input types in order)
+pub const ENUM2: [(&str, &str); 38] = [
+    ("sum2.f", "FF"), ("prod2.f", "FF"), ("diff.f", "FF"), ("quot.f", "FF"), ("exp.f", "FF"),
+    ("sum2.q", "QQ"), ("prod2.q", "QQ"), ("diff.q", "QQ"), ("quot.q", "QQ"),
+    ("and", "BB"), ("or", "BB"), ("not", "B"),
+    ("if.f", "BF"), ("if.b", "BB"), ("if.q", "BQ"),
+    ("ifelse.f", "BFF"), ("ifelse.q", "BQQ"),
+    ("n2e.f", "F"), ("n2e.q", "Q"), ("n2v.f", "F"), ("n2v.b", "B"), ("n2v.q", "Q"),
+    ("expirer.f", "F"), ("expirer.b", "B"), ("expirer.q", "Q"),
+    ("latest.b", "B"), ("latest.b", "BB"), ("latest.b", "BBB"),
+    ("latest.q", "Q"), ("latest.q", "QQ"), ("latest.q", "QQQ"),
+    ("sum.q", "Q"), ("sum.q", "QQ"), ("sum.q", "QQQ"),
+    ("prod.q", "Q"), ("prod.q", "QQ"), ("prod.q", "QQQ"),
+    ("latest.f", "FFFFF"),
+];
+fn enum2_size(types: &str) -> u64 {
+    types.bytes().map(|t| if t == b'B' { 5u64 } else { 4 }).product()
+}
+pub fn enum2_total() -> u64 {
+    ENUM2.iter().map(|(_, t)| enum2_size(t)).sum()
+}
+fn gen_c02_enum2(prop: &str, rng: &mut Rng, seed: u64, run: u64, mut k: u64) -> Plan {
+    let mut plan = Plan::new("comb", prop, seed, run);
+    let mut which = 0;
+    while k >= enum2_size(ENUM2[which].1) {
+        k -= enum2_size(ENUM2[which].1);
+        which += 1;
+    }
+    let (kind, types) = ENUM2[which];
+    let (mut nf, mut nb, mut nq) = (0, 0, 0);
+    let mut ins = Vec::new();
+    for t in types.bytes() {
+        match t {
+            b'F' => {
+                ins.push(format!("f{}", nf));
+                nf += 1;
+            }
+            b'B' => {
+                ins.push(format!("b{}", nb));
+                nb += 1;
+            }
+            _ => {
+                ins.push(format!("q{}", nq));
+                nq += 1;
+            }
+        }
+    }
+    let param = match base(kind) {
+        "expirer" => 1000,
+        "n2v" if kind.ends_with(".b") => 1,
+        "n2v" => fb(2.5),
+        _ => 0,
+    };
+    plan.sets("nodes", &nodes_text(&[NodeSpec { kind: kind.into(), ins: ins.clone(), clock: 0, param }]));
+    plan.sets("equiv", "");
+    // (quantity leaf 2 is dimensionless by construction: sums / selections over all three need unit 1)
+    let unitless = nq == 3 && base(kind) != "prod";
+    plan.set("qm", if unitless { 0 } else { rng.range(-2, 2) });
+    plan.set("qs", if unitless { 0 } else { rng.range(-2, 2) });
+    let base_t = rng.range(-1_000_000_000, 1_000_000_000);
+    plan.push("CK", &[0, base_t + rng.range(-5, 5)]);
+    for name in ins.iter() {
+        let ty = name.as_bytes()[0];
+        let i: i64 = name[1..].parse().unwrap();
+        let radix = if ty == b'b' { 5 } else { 4 };
+        let c = k % radix;
+        k /= radix;
+        let t = base_t + rng.range(-2, 2);
+        let (present, absent, err) = match ty {
+            b'f' => ("LF", "LFN", "LFE"),
+            b'b' => ("LB", "LBN", "LBE"),
+            _ => ("LQ", "LQN", "LQE"),
+        };
+        match c {
+            0 => plan.push(err, &[i, 1]),
+            1 => plan.push(err, &[i, 2]),
+            2 => plan.push(absent, &[i]),
+            _ if ty == b'b' => plan.push(present, &[i, t, (c == 4) as i64]),
+            _ => plan.push(present, &[i, t, fb(rng.moderate_f32())]),
+        }
+    }
+    plan.push("RR", &[]);
+    plan
+}
+
 pub fn gen_c02(prop: &str, tier: Tier, rng: &mut Rng, seed: u64, run: u64) -> Plan {
     if run < C02_ENUM && prop == "C02" {
         return gen_c02_enumerated(prop, rng, seed, run);
+    }
+    if run < C02_ENUM + enum2_total() && prop == "C02" {
+        return gen_c02_enum2(prop, rng, seed, run, run - C02_ENUM);
     }
     let mut plan = Plan::new("comb", prop, seed, run);
     let mut specs: Vec<NodeSpec> = Vec::new();
@@ -1047,14 +1137,26 @@ pub fn gen_c02(prop: &str, tier: Tier, rng: &mut Rng, seed: u64, run: u64) -> Pl
         }
         _ => {}
     }
+    // "never expires": a quarter of the runs that contain an expirer give it a huge limit. Every
+    // stamp and clock reading of such a run is non-negative, so that `now - stamp` is representable
+    // (the crate computes the age as that difference) while `stamp + limit` is not.
+    let has_expirer = specs.iter().any(|s| matches!(base(&s.kind), "expirer"));
+    let huge_limit = has_expirer && rng.chance(0.25);
+    if huge_limit {
+        for s in specs.iter_mut().filter(|s| base(&s.kind) == "expirer") {
+            s.param = *rng.pick(&[i64::MAX, i64::MAX - 1, i64::MAX / 2 + 10, 1i64 << 62]);
+        }
+    }
     plan.sets("nodes", &nodes_text(&specs));
     plan.sets("equiv", &equiv.join(";"));
     plan.set("qm", rng.range(-2, 2));
     plan.set("qs", rng.range(-2, 2));
     let steps = rng.range(1, if tier == Tier::Quick { 12 } else { 30 });
     let rate = *rng.pick(&[0.0, 0.1, 0.3, 0.5]);
-    let extreme = rng.chance(0.15) && !specs.iter().any(|s| matches!(base(&s.kind), "expirer"));
-    let base_t: i64 = if extreme {
+    let extreme = rng.chance(0.15) && !has_expirer;
+    let base_t: i64 = if huge_limit {
+        *rng.pick(&[1, 1_000_000_000_000, i64::MAX / 2 + 10, 1i64 << 62, i64::MAX - 6_000_000_000])
+    } else if extreme {
         *rng.pick(&[i64::MAX - 1000, i64::MIN + 1000, i64::MAX, i64::MIN, i64::MIN])
     } else {
         rng.range(-1_000_000_000_000, 1_000_000_000_000)
@@ -1072,6 +1174,7 @@ pub fn gen_c02(prop: &str, tier: Tier, rng: &mut Rng, seed: u64, run: u64) -> Pl
                 3 => r.saturating_add(rng.range(-500, 500)),
                 _ => r.saturating_add(rng.range(-5_000_000_000, 5_000_000_000) * if extreme { 0 } else { 1 }),
             };
+            let t = if huge_limit { t.max(0) } else { t };
             recent.push(t);
             if recent.len() > 6 {
                 recent.remove(0);
@@ -1116,7 +1219,8 @@ pub fn gen_c02(prop: &str, tier: Tier, rng: &mut Rng, seed: u64, run: u64) -> Pl
                 let lim = specs.iter().find(|s| base(&s.kind) == "expirer").map(|s| s.param).unwrap_or(0);
                 let r = *rng.pick(&recent);
                 let now = r.saturating_add(lim).saturating_add(*rng.pick(&[-1i64, 0, 1, -1000, 1000, 7]));
-                plan.push("CK", &[c, if extreme { r } else { now }]);
+                let near = r.saturating_add(*rng.pick(&[-1i64, 0, 1, -1000, 1000, 5_000_000_000])).max(0);
+                plan.push("CK", &[c, if extreme { r } else if huge_limit { near } else { now }]);
             }
         }
         if rng.chance(0.2) {
@@ -1261,7 +1365,7 @@ pub fn gen_graph(prop: &str, tier: Tier, rng: &mut Rng, seed: u64, run: u64) -> 
 }
 
 pub fn generate(prop: &str, tier: Tier, rng: &mut Rng, seed: u64, run: u64) -> Plan {
-    if run >= C02_ENUM && run % 8 == 7 {
+    if run >= C02_ENUM + enum2_total() && run % 8 == 7 {
         return gen_graph(prop, tier, rng, seed, run);
     }
     gen_c02(prop, tier, rng, seed, run)
